@@ -12,6 +12,13 @@ C = {
  'C05': ('model_checking', ENG + '; ' + WIRE, 'engine specs prove rtt = accept - send of the same probe for all interleavings; wire runs at production-scale timers'),
  'C06': ('model_checking', ENG + '; ' + WIRE, 'engine specs: order, pacing, stop-after-destination for all interleavings; wire runs decode every emitted probe with an independent codec'),
  'C07': ('model_checking', ENG, 'all interleavings of sender/receiver/network up to 3 (quick) or 4 (thorough) TTLs, <=2 replies per TTL'),
+ 'C08': ('model_checking', ENG + '; ' + WIRE, 'engine specs: bound and prompt cancellation for every cancellation instant of a grid incl. ties; wire runs: silence, floods, handshake stalls'),
+ 'C09': ('exploration', WIRE + ' (junk classes from the spec, bytes concretised by the harness incl. seeded random strings)', 'TLC supplies classes, instants and the expected effect (none); the byte space is sampled, not model-checked'),
+ 'C10': ('model_checking', ENG + '; ' + WIRE, 'every (operation, k, class) injection point TLC enumerates, on all protocol entry points; handle log and goroutine census checked by the observer'),
+ 'C11': ('model_checking', WIRE + '; Alloc.tla (allocator interleavings) and MatcherMC!C11_Design', 'shared-wire concurrency scenarios; every reported run must equal the design prediction for one wire run alone'),
+ 'C15': ('model_checking', 'Multi.tla (runTracerouteMulti: all failing subsets x completion orders, TLC exhaustive, liveness) + ' + WIRE, 'request-level scenarios through RunTraceroute'),
+ 'C19': ('model_checking', 'Params.tla (code decision path = property meaning over the whole lattice, TLC exhaustive) + ' + WIRE, 'every lattice point executed through RunTraceroute / the HTTP handler'),
+ 'C20': ('model_checking', 'TcpPolicy.tla (code path = policy, TLC exhaustive) + ' + WIRE, 'all 108 method x capability x failure cases executed'),
 }
 props = [json.loads(l) for l in open('/verif/properties.jsonl')]
 commits = subprocess.run(['git', '-C', '/repo', 'log', '--format=%h %s'], stdout=subprocess.PIPE, text=True).stdout.splitlines()
